@@ -90,6 +90,27 @@ CURATED_COMPOSE = [
         [],
     ),
     (
+        # the producer constrains only its two outputs (a region of the (v1, v2) plane); the consumer's guarantee weights
+        # them differently: tactic 2 optimises 2 v1 + v2 over that region (objective must follow the matrix columns)
+        "two-internal-region",
+        {"in": [], "out": ["v1", "v2"], "a": [], "g": [{"v2": -1, "v1": -1}, {"v2": -1, "v1": 1}, {"v2": 1, "v1": -1}]},
+        {"in": ["v1", "v2"], "out": ["o"], "a": [], "g": [{"v1": 2, "v2": 1, "o": 1}]},
+        [],
+    ),
+    (
+        # the consumer's assumption needs a lower bound on y that is only reachable through a two-step chain y >= w >= i
+        "chain-lower-bound",
+        {"in": ["i"], "out": ["y", "w"], "a": [], "g": [{"y": -1, "w": 1}, {"w": -1, "i": 1}]},
+        {"in": ["y"], "out": ["z"], "a": [{"y": -1}], "g": [{"z": 1, "y": -1}]},
+        [],
+    ),
+    (
+        "chain-upper-bound",
+        {"in": ["i"], "out": ["y", "w"], "a": [], "g": [{"y": 1, "w": -1}, {"w": 1, "i": -1}]},
+        {"in": ["y"], "out": ["z"], "a": [{"y": 1}], "g": [{"z": 1, "y": -1}]},
+        [],
+    ),
+    (
         "two-eliminated",
         {"in": ["x"], "out": ["y", "w"], "a": [{"x": 1}], "g": [{"y": 1, "x": -1}, {"w": 1, "x": 1}, {"w": -1}]},
         {"in": ["y", "w"], "out": ["z"], "a": [{"y": 1, "w": 1}], "g": [{"z": 1, "y": -1, "w": -1}]},
